@@ -175,7 +175,7 @@ func runHist(ci interface{}, s *vkit.Stats) error {
 			if t.mocked || everMocked[k] {
 				continue
 			}
-			val := vkit.Value(vi.Type, uint64(op.I[1])+17)
+			val := vkit.Value(vi.Type, uint64(op.I[1]))
 			vi.Direct().Set(val)
 			t.cur = snapshot(vi.Direct())
 			s.Class("assigned-by-the-program-between-mocks")
